@@ -772,6 +772,74 @@ static void part_txf(void) {
 	}
 }
 
+/* a request is abandoned by the client while it is half written (a would-block at output offset `off`, then the send timeout
+ * elapses before the socket accepts more): the connection's byte stream now ends inside that request, so whatever is sent
+ * later has to travel, whole, on a fresh connection - never appended to the fragment */
+static void part_txa(void) {
+	static const int SETS[][4] = {{5, 0, 0, 0}, {2, 5, 0, 0}, {3, 4, 0, 0}, {2, 2, 3, 0}, {10, 0, 0, 0}};
+	int s, late;
+	size_t off;
+	for (s = 0; s < 5; s++) for (late = 1; late <= 2; late++) {
+		int ns = 0, total = 0;
+		while (ns < 4 && SETS[s][ns]) { total += SETS[s][ns]; ns++; }
+		for (off = 0; off <= (size_t)total; off++) {
+			KSI_CTX *ctx;
+			KSI_AsyncClient *c;
+			KSI_AsyncHandle *h[6];
+			unsigned char raw[16];
+			int i, round, res, inside = 0, nall;
+			size_t j, acc = 0;
+			long steps = 0;
+			if (!CASE_BEGIN("txa:s%d.%d.%d:late%d:off%zu", SETS[s][0], SETS[s][1], SETS[s][2], late, off)) continue;
+			SAMPLE(2, "%s: tiny requests, would-block at output offset %zu, then the send timeout of the queued requests elapses and %d more request(s) are submitted", vf_case_name(), off, late);
+			env_install();
+			req_reset();
+			ctx = dctx();
+			c = dc_new(ctx, 100);
+			for (i = 0; i < ns; i++) {
+				for (j = 0; j < (size_t)SETS[s][i]; j++) raw[j] = (unsigned char)(0x11 * (i + 1) + 0x20 * (int)j + 0x80 * (j == 0));
+				h[i] = dc_add(ctx, c, raw, (size_t)SETS[s][i]);
+				vb_put(&REQ[i], raw, (size_t)SETS[s][i]);
+				if (off > acc && off < acc + (size_t)SETS[s][i]) inside = 1;
+				acc += (size_t)SETS[s][i];
+			}
+			nreq = ns;
+			if (off < (size_t)total) ev_add(&CS[0].tx, off, A_WB, 0);
+			hook_budget = 300;
+			res = c->dispatch(c->clientImpl); steps++;
+			if (res != KSI_OK) vf_fail("wouldblock-dispatch-error", "dispatch returned 0x%x for a would-block", res);
+			/* the socket stays full for longer than the send timeout */
+			sn_now += (time_t)c->options[KSI_ASYNC_OPT_SND_TIMEOUT] + 1;
+			for (i = 0; i < late; i++) {
+				for (j = 0; j < 3; j++) raw[j] = (unsigned char)(0x0f - i + 0x20 * (int)j + 0x80 * (j == 0));
+				h[ns + i] = dc_add(ctx, c, raw, 3);
+				vb_put(&REQ[ns + i], raw, 3);
+			}
+			nall = nreq = ns + late;
+			for (round = 0; round < 6; round++) {
+				res = c->dispatch(c->clientImpl); steps++;
+				if (res != KSI_OK && res != KSI_ASYNC_CONNECTION_CLOSED) vf_fail("dispatch-error", "dispatch returned 0x%x", res);
+			}
+			if (spin) vf_fail("spin", "more than %ld socket calls", hook_budget);
+			if (wire_check("txa") == 0) {
+				for (i = 0; i < nall; i++) {
+					if (sent_on[i] < 0 && h[i]->state != KSI_ASYNC_STATE_ERROR)
+						vf_fail("request-lost", "request %d never travelled whole on any connection and is not in the error state (state %d)", i, h[i]->state);
+					if (sent_on[i] >= 0 && h[i]->state != KSI_ASYNC_STATE_WAITING_FOR_RESPONSE)
+						vf_fail("tx-state", "request %d was written whole but its state is %d", i, h[i]->state);
+				}
+				for (i = ns; i < nall; i++) if (sent_on[i] < 0)
+					vf_fail("late-request-not-sent", "request %d, submitted after the time-out, was not written although the peer accepts data", i);
+			}
+			vf_outcome("txa:%s:conns%d", inside ? "abandoned-inside-request" : "abandoned-at-boundary", sn_nconn);
+			KSI_AsyncClient_free(c);
+			for (i = 0; i < nall; i++) KSI_AsyncHandle_free(h[i]);
+			count_env(steps);
+			CASE_END(1);
+		}
+	}
+}
+
 /* ====================================================================== part e2e / flt: asynchronous service */
 typedef struct { int returned, state, err, sig_res, own, round; } result_t;
 typedef struct {
@@ -1282,6 +1350,7 @@ static void run(void) {
 	PART("blk", part_blk);
 	PART("e2e", part_e2e);
 	PART("txf", part_txf);
+	PART("txa", part_txa);
 	PART("tx", part_tx);
 	PART("rx", part_rx);
 }
